@@ -722,6 +722,12 @@ public:
     try {
       static_cast<Converter&>(cvt).PropagateResult(
             GetConstraint(i), lb, ub, ctx);
+    } catch (const mp::Error& err) {    // keep the error's code (e.g., infeasibility)
+      MP_RAISE_WITH_CODE(err.exit_code(), Converter::GetTypeName() +
+                             std::string(": propagating result for constraint ") +
+                             std::to_string(i) + " of type '" +
+                             Constraint::GetTypeName() +
+                             "':  " + err.what());
     } catch (const std::exception& exc) {
       MP_RAISE(Converter::GetTypeName() +
                              std::string(": propagating result for constraint ") +
@@ -747,6 +753,10 @@ public:
     MP_UNUSED(cvt);
     try {
       return ConvertAllFrom(i_cvt_last_);
+    } catch (const mp::Error& err) {    // keep the error's code (e.g., infeasibility)
+      MP_RAISE_WITH_CODE(err.exit_code(),
+                         Converter::GetTypeName() + std::string(": ")
+                             + err.what());
     } catch (const std::exception& exc) {
       MP_RAISE(Converter::GetTypeName() + std::string(": ")
                              + exc.what());
@@ -791,6 +801,12 @@ public:
       const std::vector<std::string>* pvnam) override {
     try {
       AddAllUnbridged(be, pvnam);
+    } catch (const mp::Error& err) {    // keep the error's code
+      MP_RAISE_WITH_CODE(err.exit_code(),
+                         std::string("Adding constraint of type '") +
+                             Constraint::GetTypeName() + "' to " +
+                             Backend::GetTypeName() + std::string(": ") +
+                             err.what());
     } catch (const std::exception& exc) {
       MP_RAISE(std::string("Adding constraint of type '") +
                              Constraint::GetTypeName() + "' to " +
